@@ -213,6 +213,66 @@ def check(run):
             nbad += 1
             if nbad <= 3:
                 run.fail("spline-join", "%s spline %s -> %s: %s" % (c["kind"], desc["start"], desc["end"], problems[0]), dict(case=desc, problems=problems[:6]))
+    # definitions that differ in ONE datum only, built one after the other in this process (a scan of the attach point, of the detach point, of r_min, of one parameter of
+    # an end potential; several [Pair] entries of one file that differ there): each must be the spline of ITS OWN data - nothing remembered from a definition built
+    # before may be handed out (round-6 seed C10_12: a memo of solved splines whose key lacked the attach point)
+    for i in range(run.n(8, 80)):
+        sk, sp = start_pot(rng)
+        ek, ep = end_pot(rng)
+        kind = "exp" if i % 2 == 0 else "buck4"
+        rd = round(rng.uniform(0.6, 1.5), 3)
+        ra = round(rd + rng.uniform(0.6, 1.5), 3)
+        rm = round(rd + (ra - rd) * 0.5, 3)
+        base = dict(start=(sk, list(sp)), end=(ek, list(ep)), rd=rd, ra=ra, rm=rm)
+        variants = [dict(base)]
+        for what in ("ra", "rd", "rm", "ra", "end", "start"):
+            v = dict(variants[-1] if rng.random() < 0.5 else base)
+            if what == "ra":
+                v["ra"] = round(v["ra"] + rng.choice([-0.15, 0.2, 0.35]), 3)
+            elif what == "rd":
+                v["rd"] = round(v["rd"] + rng.choice([-0.1, 0.1]), 3)
+            elif what == "rm":
+                v["rm"] = round(v["rm"] + rng.choice([-0.05, 0.07]), 3)
+            elif what == "end":
+                q = list(v["end"][1]); q[-1] = q[-1] * 1.25 + 0.5; v["end"] = (v["end"][0], q)
+            else:
+                q = list(v["start"][1]); q[0] = q[0] * 1.1 + 1.0; v["start"] = (v["start"][0], q)
+            if v["rd"] < v["rm"] < v["ra"] and v["ra"] - v["rd"] > 0.3:
+                variants.append(v)
+        defs = []
+        for v in variants:
+            mid = "exp_spline" if kind == "exp" else "buck4_spline %r" % v["rm"]
+            defs.append("spline(%s >%r %s >=%r %s)" % (text(*v["start"]), v["rd"], mid, v["ra"], text(*v["end"])))
+        cfg = "[Tabulation]\ntarget : LAMMPS\ncutoff : 10.0\nnr : 11\n[Pair]\n" + "".join("S%d-X : %s\n" % (j, d) for j, d in enumerate(defs))
+        run.case(key=("one-datum-apart", kind, cfg), kind="one-datum-apart/" + kind)
+        run.traces += 1
+        try:
+            from atsim.potentials.config import Configuration
+            pots = dict((p.speciesA, p.potentialFunction) for p in Configuration().read(io.StringIO(cfg)).potentials)
+            singles = [potable_callable(d) for d in defs]
+        except Exception as ex:
+            run.fail("spline-construction", "a file with %d spline() definitions that differ in one datum each raised %s: %s" % (len(defs), type(ex).__name__, str(ex)[:200]), dict(potable_file=cfg))
+            continue
+        done = False
+        for j, v in enumerate(variants):
+            s0, e0 = getattr(pfo, v["start"][0])(*v["start"][1]), getattr(pfo, v["end"][0])(*v["end"][1])
+            try:
+                ref = ap.SplinePotential(s0, e0, v["rd"], v["ra"]) if kind == "exp" else Buck4_SplinePotential(s0, e0, v["rd"], v["ra"], v["rm"])
+            except Exception:
+                continue
+            for route, g in (("entry %d of the file" % j, pots["S%d" % j]), ("definition %d read on its own, after the others" % j, singles[j])):
+                for t in range(30):
+                    r = 0.05 + t * (1.6 * v["ra"] / 30.0)
+                    a, bb = ref(r), g(r)
+                    if not close(a, bb, 1e-12, 1e-12):
+                        run.fail("spline-history", "%s: %s gives %r at r=%r, the spline of its own data (detach %r, attach %r%s) gives %r; the definitions built before it differ from it in one datum"
+                                 % (route, defs[j], bb, r, v["rd"], v["ra"], "" if kind == "exp" else ", r_min %r" % v["rm"], a), dict(potable_file=cfg, entry=j, r=r))
+                        done = True
+                        break
+                if done:
+                    break
+            if done:
+                break
     # as.buck4 shorthand: three routes
     for i in range(run.n(25, 400)):
         A, rho, C = rnd(rng, 300, 3000, 1), rnd(rng, 0.2, 0.4, 3), rnd(rng, 5, 60, 1)
